@@ -25,7 +25,7 @@ def _total_seconds(td) -> cython.double:
     return days * 86400.0 + seconds + microseconds / 1000000.0
 
 
-cpdef int date_to_idx_fast(
+cpdef long long date_to_idx_fast(
     object date,
     object start_date,
     int resolution,
@@ -64,7 +64,7 @@ cpdef int date_to_idx_fast(
 
 
 cpdef object idx_to_date_fast(
-    int idx,
+    long long idx,
     object start_date,
     int resolution,
     int size,
